@@ -146,6 +146,9 @@ def oracle(scn, outs):
             usable = (inv == "0" and not pending and len(cur_enc[1]) == 3 and built_l and
                       set(built_l) == set(range(int(cur_enc[1][1]))) and set(built_v) == set(built_l) and
                       not any(v in ("none", "-") for v in built_l.values()))
+            if usable and any(n["type"] in (4, 5, 6, 7, 8, 9) and n["nbits"] <= 0 and not (n["flags"] & 4)
+                              for v in built_l.values() for n in parse_nodes(v)):
+                usable = False    # an operator reduced an element's width to zero or less: not a width FM 94 knows (cf. C09)
             if not usable:
                 built_l = None
         elif t[0] == "ds.decodelast":
